@@ -441,6 +441,11 @@ func (x *Exec) runFunc(fd *ast.FuncDecl, c *Contract, sc splitCase, first bool) 
 			unbound("assertbefore", aa.Anchor)
 		}
 	}
+	for _, aa := range c.AssertAfter {
+		if x.anchorHits["assertafter:"+aa.Anchor] == 0 && !hasPrefixIn(stmts, aa.Anchor) {
+			unbound("assertafter", aa.Anchor)
+		}
+	}
 	for _, ga := range c.GhostAfter {
 		if x.anchorHits[ga.Anchor] == 0 && !hasPrefixIn(stmts, ga.Anchor) {
 			unbound("ghostafter", ga.Anchor)
